@@ -38,7 +38,8 @@ def gen_case(rng, maxops):
                 e = rng.choice([0xfff, 0x1fff, 1, 2, rng.randint(0, 1 << rng.randint(1, 63))])
             e = min(e, MAX - a)
             m = rng.choice(METHS)
-            ok = 0 if rng.random() < 0.15 else 1
+            r2 = rng.random()
+            ok = 0 if r2 < 0.13 else (rng.choice([2, 3]) if r2 < 0.2 else 1)
             ops.append("S:%x:%x:%s:%d" % (a, e, hexs(m), ok))
             for v in (a, a + e, a - 1, a + e + 1):
                 if 0 <= v <= MAX and len(pool) < 64:
